@@ -420,6 +420,19 @@ func FactsC06(f *hc.Facts) {
 	}
 	f.Const("bindInnerTypeID", "crypto", "BindAuthKeyInnerTypeID")
 	FactsC06Bind(f)
+	// whole bodies of the small composing functions, statement by statement (pinned in Props): which
+	// arguments reach the hash helpers and in which order the pieces are assembled
+	for _, fn := range [][2]string{{"keysBody", "Keys"}, {"messageKeyBody", "MessageKey"}, {"aesIVBody", "aesIV"}, {"aesKeyBody", "aesKey"},
+		{"keysV1Body", "KeysV1"}, {"messageKeyV1Body", "MessageKeyV1"}, {"messageKeyFnBody", "messageKey"}} {
+		fd := f.FuncDecl("crypto", fn[1])
+		var sts []string
+		if fd != nil && fd.Body != nil {
+			for _, st := range fd.Body.List {
+				sts = append(sts, squash(f.Src(st)))
+			}
+		}
+		f.Raw("def " + fn[0] + " : List String := " + strList(sts) + " -- crypto." + fn[1])
+	}
 	old := f.FuncDecl("crypto", "OldKeys")
 	copies(f, "oldKeys_key_copies", closure(old, "aesKey"), "v", "crypto.OldKeys aesKey closure")
 	copies(f, "oldKeys_iv_copies", closure(old, "aesIV"), "v", "crypto.OldKeys aesIV closure")
